@@ -265,6 +265,10 @@ func schedDrainLoops(c *Ctx) *RuleResult {
 				if !mentions {
 					return true
 				}
+				// a counting loop is only "over F" when its bound is F's length
+				if (loop.Post != nil || loop.Init != nil) && !(loop.Cond != nil && mentionsF(loop.Cond)) {
+					return true
+				}
 				bodyShrinks := false
 				ast.Inspect(loop.Body, func(m ast.Node) bool {
 					if call, ok := m.(*ast.CallExpr); ok {
